@@ -14,12 +14,15 @@ import (
 	"encoding/json"
 	"fmt"
 	"os"
+	"sort"
 	"strings"
+	"sync"
 
 	dbm "github.com/33cn/chain33/common/db"
 	"github.com/33cn/chain33/common/log/log15"
 	"github.com/33cn/chain33/queue"
 	_ "github.com/33cn/chain33/system" // registers drivers, consensus, store, crypto
+	drivers "github.com/33cn/chain33/system/dapp"
 	"github.com/33cn/chain33/types"
 	"github.com/33cn/chain33/util"
 	"github.com/33cn/chain33/util/testnode"
@@ -30,6 +33,77 @@ type Variant struct {
 	Stat    bool `json:"stat"`    // exec.enableStat: the "stat" plugin
 	AddrFee bool `json:"addrfee"` // exec.enableAddrFeeIndex: the "addrfeeindex" plugin
 	Free    bool `json:"free"`    // minimum fee rate 0, as testnode.New("--free--")
+	// system forks moved from height 0 to a height the block list crosses (cfg.SetFork, the repo's own test hook), so
+	// that height-gated decisions change between the blocks of a case
+	Forks map[string]int64 `json:"forks,omitempty"`
+}
+
+// GatedDapps are synthetic dapps registered the way an external plugin registers itself
+// (drivers.Register(cfg, name, create, enableHeight)) with an enable height above 0: below it the executor runs their
+// transactions with the none driver, from it on with the real driver.
+var GatedDapps = map[string]int64{"c13gate2": 2, "c13gate3": 3}
+
+type gatedApp struct {
+	*drivers.DriverBase
+	name string
+}
+
+func (g *gatedApp) GetDriverName() string { return g.name }
+
+// Exec is state dependent (a per-dapp counter) and writes a per-transaction key and a log.
+func (g *gatedApp) Exec(tx *types.Transaction, index int) (*types.Receipt, error) {
+	ckey := []byte("mavl-" + g.name + "-count")
+	var count types.Int64
+	if v, err := g.GetStateDB().Get(ckey); err == nil {
+		if err := types.Decode(v, &count); err != nil {
+			return nil, err
+		}
+	}
+	count.Data++
+	return &types.Receipt{Ty: types.ExecOk,
+		KV: []*types.KeyValue{{Key: ckey, Value: types.Encode(&count)},
+			{Key: []byte("mavl-" + g.name + "-tx-" + hex.EncodeToString(tx.Hash())), Value: append([]byte{1}, tx.Payload...)}},
+		Logs: []*types.ReceiptLog{{Ty: 9913, Log: types.Encode(&count)}}}, nil
+}
+
+func (g *gatedApp) localKey(tx *types.Transaction) []byte {
+	return []byte("LODB-" + g.name + "-" + hex.EncodeToString(tx.Hash()))
+}
+
+func (g *gatedApp) ExecLocal(tx *types.Transaction, r *types.ReceiptData, index int) (*types.LocalDBSet, error) {
+	if r.GetTy() != types.ExecOk {
+		return &types.LocalDBSet{}, nil
+	}
+	return &types.LocalDBSet{KV: []*types.KeyValue{{Key: g.localKey(tx), Value: r.Logs[len(r.Logs)-1].Log}}}, nil
+}
+
+func (g *gatedApp) ExecDelLocal(tx *types.Transaction, r *types.ReceiptData, index int) (*types.LocalDBSet, error) {
+	if r.GetTy() != types.ExecOk {
+		return &types.LocalDBSet{}, nil
+	}
+	return &types.LocalDBSet{KV: []*types.KeyValue{{Key: g.localKey(tx)}}}, nil
+}
+
+var gatedOnce sync.Once
+
+// registerGated fills the process-global driver registry once per process (it is keyed by name only).
+func registerGated(cfg *types.Chain33Config) {
+	gatedOnce.Do(func() {
+		names := make([]string, 0, len(GatedDapps))
+		for name := range GatedDapps {
+			names = append(names, name)
+		}
+		sort.Strings(names)
+		for _, name := range names {
+			name, h := name, GatedDapps[name]
+			drivers.Register(cfg, name, func() drivers.Driver {
+				app := &gatedApp{DriverBase: &drivers.DriverBase{}, name: name}
+				app.SetChild(app)
+				return app
+			}, h)
+			types.AllowUserExec = append(types.AllowUserExec, []byte(name))
+		}
+	})
 }
 
 // CaseFile is what the parent writes under $VERIF_WORK and every execution reads.
@@ -72,6 +146,8 @@ type Counts struct {
 	MaxWriter int `json:"max_writer"` // max number of transactions writing one state key
 	DupKeys   int `json:"dup_keys"`   // keys collapsed by DelDupKey
 	LocalAdd  int `json:"local_add"`  // number of local KVs of EventAddBlock
+	GatedTx   int `json:"gated_tx"`   // transactions naming a gated dapp
+	GatedOk   int `json:"gated_ok"`   // ... that were executed by the dapp's own driver (ExecOk)
 }
 
 // Result is one execution of a case.
@@ -115,11 +191,16 @@ func NewConfig(v Variant) *types.Chain33Config {
 		cfg.GetModuleConfig().Wallet.MinFee = 0
 		cfg.SetMinFee(0)
 	}
+	for name, h := range v.Forks {
+		cfg.SetFork(name, h)
+	}
 	return cfg
 }
 
 func newNode(v Variant) *testnode.Chain33Mock {
-	mock := testnode.NewWithConfig(NewConfig(v), nil)
+	cfg := NewConfig(v)
+	registerGated(cfg)
+	mock := testnode.NewWithConfig(cfg, nil)
 	if mock == nil {
 		fixturef("testnode did not start")
 	}
@@ -230,6 +311,24 @@ func rawReceipts(client queue.Client, prevRoot []byte, block *types.Block) (*typ
 	}
 }
 
+// mempoolCheck mirrors system/mempool checkTxListRemote: height, state and time of the last header, IsMempool set.
+// The verdicts are ignored: this is prior activity, not an observation.
+func mempoolCheck(client queue.Client, tip *types.Block, txs []*types.Transaction) {
+	list := &types.ExecTxList{StateHash: tip.StateHash, BlockTime: tip.BlockTime, Height: tip.Height, IsMempool: true}
+	for _, tx := range txs {
+		if tx.GroupCount == 0 {
+			list.Txs = append(list.Txs, tx)
+		}
+	}
+	msg := client.NewMessage("execs", types.EventCheckTx, list)
+	if err := client.Send(msg, true); err != nil {
+		fixturef("EventCheckTx send: %v", err)
+	}
+	if _, err := client.Wait(msg); err != nil && err != types.ErrExecPanic {
+		fixturef("EventCheckTx wait: %v", err)
+	}
+}
+
 func applyLocal(db dbm.DB, kvs []*types.KeyValue) {
 	batch := db.NewBatch(true)
 	for _, kv := range kvs { // as BlockStore.AddTxs
@@ -246,9 +345,16 @@ func applyLocal(db dbm.DB, kvs []*types.KeyValue) {
 
 // execChain executes the blocks one after another on top of the node's genesis block.  When connect is false the
 // blocks are only executed against the state store (side-chain style): nothing is written to the local db.
-// side (warm executions only): before block i is executed, side[i%len] is executed and committed to the state store on
-// the same parent, like a miner's own candidate block that then loses against a received block of the same height.
-func execChain(mock *testnode.Chain33Mock, blocks [][]string, connect bool, side [][]string) []BlockDigest {
+// Prior activity on the same node, for executions that model a long-running process; before block i is executed,
+//   - side: side[i%len] is executed and committed to the state store on the same parent, like a miner's own candidate
+//     block that then loses against a received block of the same height;
+//   - check: the single transactions of check[i%len] are sent to the executor as EventCheckTx at the height of the
+//     current tip, exactly as the mempool does for every incoming transaction.
+//
+// Both carry transactions of every kind, including ones for dapps that are not enabled yet at that height.
+type prior struct{ side, check [][]string }
+
+func execChain(mock *testnode.Chain33Mock, blocks [][]string, connect bool, pr prior) []BlockDigest {
 	client := mock.GetClient()
 	cfg := client.GetConfig()
 	parent := mock.GetBlock(0)
@@ -256,8 +362,11 @@ func execChain(mock *testnode.Chain33Mock, blocks [][]string, connect bool, side
 	for i, hexes := range blocks {
 		var d BlockDigest
 		newBlock := func() *types.Block { return util.CreateNewBlock(cfg, parent, decodeTxs(hexes)) }
-		if len(side) > 0 {
-			_, _, _ = util.ExecBlock(client, parent.StateHash, util.CreateNewBlock(cfg, parent, decodeTxs(side[i%len(side)])), false, true, false)
+		if len(pr.side) > 0 {
+			_, _, _ = util.ExecBlock(client, parent.StateHash, util.CreateNewBlock(cfg, parent, decodeTxs(pr.side[i%len(pr.side)])), false, true, false)
+		}
+		if len(pr.check) > 0 {
+			mempoolCheck(client, parent, decodeTxs(pr.check[i%len(pr.check)]))
 		}
 
 		// (1) the executor's reply to EventExecTxList
@@ -298,6 +407,12 @@ func execChain(mock *testnode.Chain33Mock, blocks [][]string, connect bool, side
 				}
 				if blk.Txs[i].GroupCount > 0 {
 					d.Counts.GroupTx++
+				}
+				if _, gated := GatedDapps[string(blk.Txs[i].Execer)]; gated {
+					d.Counts.GatedTx++
+					if r.Ty == types.ExecOk {
+						d.Counts.GatedOk++
+					}
 				}
 				seen := map[string]bool{}
 				for _, kv := range r.KV {
@@ -381,10 +496,10 @@ func execChain(mock *testnode.Chain33Mock, blocks [][]string, connect bool, side
 // opposite setting connects the warm blocks and answers queries, is closed, and leaves its process-global traces
 // (plugin flags, address and driver caches, sync.Pools, registered forks) behind.
 func unrelatedWork(c *CaseFile) {
-	v := Variant{Stat: !c.Cfg.Stat, AddrFee: !c.Cfg.AddrFee, Free: c.Cfg.Free}
+	v := Variant{Stat: !c.Cfg.Stat, AddrFee: !c.Cfg.AddrFee, Free: c.Cfg.Free, Forks: c.Cfg.Forks}
 	mock := newNode(v)
 	defer mock.Close()
-	ds := execChain(mock, c.Warm, true, nil)
+	ds := execChain(mock, c.Warm, true, prior{})
 	root, _ := hex.DecodeString(ds[len(ds)-1].Root)
 	if len(root) > 0 {
 		mock.GetAccount(root, mock.GetGenesisAddress())
@@ -392,8 +507,15 @@ func unrelatedWork(c *CaseFile) {
 	}
 }
 
-// Run executes a case once in this process.  warm selects the long-running-process scenario.
-func Run(c *CaseFile, warm bool) (res *Result, err error) {
+// Execution modes of Run.
+const (
+	ModeFresh = "fresh" // only the block list
+	ModeWarm  = "warm"  // another node first, then side-chain and losing candidate blocks on the node under test
+	ModeCheck = "check" // mempool-style EventCheckTx traffic on the node under test before every block
+)
+
+// Run executes a case once in this process.
+func Run(c *CaseFile, mode string) (res *Result, err error) {
 	defer func() {
 		if r := recover(); r != nil {
 			if f, ok := r.(Fixture); ok {
@@ -406,22 +528,26 @@ func Run(c *CaseFile, warm bool) (res *Result, err error) {
 	if len(c.Blocks) == 0 {
 		fixturef("case without blocks")
 	}
-	if warm {
+	if mode == ModeWarm {
 		unrelatedWork(c)
 	}
 	mock := newNode(c.Cfg)
 	defer mock.Close()
-	if warm {
-		// side-chain executions at the same parent: fills the state store and its caches with unrelated nodes
-		execChain(mock, c.Warm, false, nil)
+	var pr prior
+	switch mode {
+	case ModeWarm:
+		// side chain from the genesis block: fills the state store and its caches with unrelated nodes
+		execChain(mock, c.Warm, false, prior{})
+		pr.side = c.Warm
+	case ModeCheck:
+		pr.check = c.Warm
+	case ModeFresh:
+	default:
+		fixturef("unknown mode %q", mode)
 	}
 	g := mock.GetBlock(0)
 	res = &Result{Genesis: hex.EncodeToString(g.Hash(mock.GetClient().GetConfig())) + "/" + hex.EncodeToString(g.StateHash)}
-	var side [][]string
-	if warm {
-		side = c.Warm
-	}
-	res.Blocks = execChain(mock, c.Blocks, true, side)
+	res.Blocks = execChain(mock, c.Blocks, true, pr)
 	return res, nil
 }
 
